@@ -1300,3 +1300,8 @@ Proof.
   pose proof (nodup_run norm_ascii true sample_reqs empty_membership H4) as (Hn & _ & _).
   split; [exact Hn|]. vm_compute. discriminate.
 Qed.
+
+(* tie G: the [ordered] argument of the model is the replica's config flag
+   OrderedConfigChange and nothing else (regenerated from rsm.NewStateMachine) *)
+Lemma ordered_flag_is_config_flag : membership_ordered_is_config_ordered = true.
+Proof. reflexivity. Qed.
